@@ -185,6 +185,20 @@ fn c01_judge(ctx: &mut Ctx, known: &Known, c: &CaseReq, ex: &Exchange, parsed: O
 
 pub fn run_c03(ctx: &mut Ctx, _known: &Known) {
     run_implonly(ctx);
+    // conditions that are a single bare value (no operator, identifier or quantifier): either a
+    // load error or a rule that evaluates without panicking
+    for cond in ["int(x)", "flt(x)", "str(x)", "not(x)", "1", "1.5", "(int(x))", "((1))", "string(x)", "x", "(x)", "all(x)", "of(x, 1)", "int(x) == 1", "not x"] {
+        let c = CaseReq {
+            optimised: false,
+            det: vec![("x".into(), map1y("x", gen::ys("1"))), ("condition".into(), gen::ys(cond))],
+            tps: vec![map1y("x", gen::ys("1"))],
+            tns: vec![map1y("y", gen::ys("1"))],
+            docs: vec![map1y("x", gen::ys("1")), map1y("x", Yaml::Number(1u64.into())), map1y("y", gen::ys("1"))],
+            masks: (0..16).collect(),
+        };
+        let (ex, parsed) = run_rule_case(ctx, &c, false);
+        c03_judge(ctx, &c, &ex, parsed, &format!("bare-condition:{}", cond));
+    }
     for (name, c) in corpus_cases() {
         let (ex, parsed) = run_rule_case(ctx, &c, false);
         c03_judge(ctx, &c, &ex, parsed, &format!("corpus:{}", name));
@@ -335,6 +349,13 @@ fn tagged(v: Yaml) -> Yaml {
 }
 
 fn example(r: &mut Rng) -> Yaml {
+    if r.chance(6) {
+        // a long example full of multi-byte characters (its rendering in an error message is long)
+        let unit = *r.pick(&["é", "日本", "aé", "€x", "𝄞"]);
+        let pad = r.below(3);
+        let text = format!("{}{}", "x".repeat(pad), unit.repeat(90 + r.below(60)));
+        return if r.chance(60) { map1y(*r.pick(&["s", "a", "zz"]), gen::ys(&text)) } else { gen::ys(&text) };
+    }
     match r.below(14) {
         // a tagged mapping is still a mapping (`as_mapping` looks through tags); a tagged scalar is not
         12 => tagged(gen::gen_doc(r)),
